@@ -16,7 +16,9 @@ package server
 import (
 	"fmt"
 	"net/netip"
+	"os"
 	"reflect"
+	"sort"
 	"testing"
 	"time"
 
@@ -38,6 +40,11 @@ type c14sCase struct {
 	LocalAS uint32    `json:"local_as"`
 	NoAS4   bool      `json:"no_as4"` // the observer lacks the 4-octet-AS capability
 	Sets    []c14sSet `json:"sets"`
+	// Source: 0 the routes are added through the API; 1 they are learned from a peer without the 4-octet-AS
+	// capability, which sends them in the RFC 6793 OLD-speaker form (built here, not by the code under test);
+	// 2 as 1, and every UPDATE also carries an attribute RFC 7606 discards (ATOMIC_AGGREGATE with a body);
+	// 3 (control) learned from a peer with the capability
+	Source int `json:"source,omitempty"`
 }
 
 func drawC14s(t *rapid.T) c14sCase {
@@ -48,6 +55,7 @@ func drawC14s(t *rapid.T) c14sCase {
 	asn := func(l string) uint32 {
 		return rapid.SampledFrom([]uint32{100, 200, 65010, 23456, 65536, 4200000001, 4200000002, 70000}).Draw(t, l)
 	}
+	c.Source = rapid.SampledFrom([]int{0, 0, 1, 1, 2, 2, 3}).Draw(t, "source")
 	ns := rapid.IntRange(1, 3).Draw(t, "nsets")
 	for i := 0; i < ns; i++ {
 		l := fmt.Sprintf("s%d", i)
@@ -142,6 +150,54 @@ func c14sMerge(asPath, as4 []rsSeg) []rsSeg {
 	return c14sNorm(append(out, as4...))
 }
 
+// c14sOldForm is what an OLD speaker relays (RFC 6793 4.2.2): AS_PATH in 2-octet form with AS_TRANS for every wide
+// AS number and, when there is one, the AS4_PATH with the true numbers.
+func c14sOldForm(path []rsSeg, old bool) []bgp.PathAttributeInterface {
+	if !old {
+		var ps []bgp.AsPathParamInterface
+		for _, sg := range path {
+			ps = append(ps, bgp.NewAs4PathParam(sg.T, append([]uint32(nil), sg.AS...)))
+		}
+		return []bgp.PathAttributeInterface{bgp.NewPathAttributeAsPath(ps)}
+	}
+	var ps []bgp.AsPathParamInterface
+	var p4 []*bgp.As4PathParam
+	wide := false
+	for _, sg := range path {
+		var two []uint16
+		for _, a := range sg.AS {
+			if a > 65535 {
+				wide = true
+				two = append(two, bgp.AS_TRANS)
+			} else {
+				two = append(two, uint16(a))
+			}
+		}
+		ps = append(ps, bgp.NewAsPathParam(sg.T, two))
+		p4 = append(p4, bgp.NewAs4PathParam(sg.T, append([]uint32(nil), sg.AS...)))
+	}
+	out := []bgp.PathAttributeInterface{bgp.NewPathAttributeAsPath(ps)}
+	if wide {
+		out = append(out, bgp.NewPathAttributeAs4Path(p4))
+	}
+	return out
+}
+
+func c14sOldAggregator(as uint32, old bool) []bgp.PathAttributeInterface {
+	addr := netip.MustParseAddr("10.9.9.9")
+	if !old {
+		a, _ := bgp.NewPathAttributeAggregator(as, addr)
+		return []bgp.PathAttributeInterface{a}
+	}
+	if as > 65535 {
+		a, _ := bgp.NewPathAttributeAggregator(uint16(bgp.AS_TRANS), addr)
+		a4, _ := bgp.NewPathAttributeAs4Aggregator(as, addr)
+		return []bgp.PathAttributeInterface{a, a4}
+	}
+	a, _ := bgp.NewPathAttributeAggregator(uint16(as), addr)
+	return []bgp.PathAttributeInterface{a}
+}
+
 func runC14s(t *testing.T) func(c c14sCase, st *verifkit.Stats) *verifkit.Failure {
 	return func(c c14sCase, st *verifkit.Stats) *verifkit.Failure {
 		return simRun(t, func() *verifkit.Failure {
@@ -165,7 +221,62 @@ func runC14s(t *testing.T) func(c c14sCase, st *verifkit.Stats) *verifkit.Failur
 			want := map[string]c14sAttrs{}
 			var paths []*apiutil.Path
 			idx := 0
+			var srcSess *simSess
+			src := rsPeer{Addr: "10.0.0.1", ID: "10.0.0.1", Kind: rsEBGP, AS: 65001}
+			if c.Source != 0 {
+				if err := n.s.AddPeer(t.Context(), &api.AddPeerRequest{Peer: rsApiPeer(rsGlobal{}, &src)}); err != nil {
+					return verifkit.Failf("addpeer", "%v", err)
+				}
+				n.settle()
+				sspec := rsOpenSpec(&src)
+				sspec.NoAS4 = c.Source != 3
+				if srcSess, _, err = n.establish(src.def(), sspec); err != nil {
+					return verifkit.Failf("establish", "source: %v", err)
+				}
+			}
+			stored := map[string]c14sAttrs{} // what the tables must hold for a learned route
 			for _, s := range c.Sets {
+				if c.Source != 0 {
+					// the neighbour's own AS first; the rest as drawn
+					full := append([]rsSeg{{T: 2, AS: []uint32{src.AS}}}, s.Path...)
+					for off := 0; off < s.Count; off += 400 {
+						cnt := s.Count - off
+						if cnt > 400 {
+							cnt = 400
+						}
+						var nl []bgp.PathNLRI
+						for k := 0; k < cnt; k++ {
+							pfx := netip.PrefixFrom(netip.AddrFrom4([4]byte{10, byte(20 + idx>>16), byte(idx >> 8), byte(idx)}), 32)
+							idx++
+							x, _ := bgp.NewIPAddrPrefix(pfx)
+							nl = append(nl, bgp.PathNLRI{NLRI: x})
+							w := c14sAttrs{Path: c14sNorm(append([]rsSeg{{T: 2, AS: []uint32{c.LocalAS}}}, full...))}
+							sw := c14sAttrs{Path: c14sNorm(full)}
+							if s.AggAS != 0 {
+								w.Agg, w.AggAS = true, s.AggAS
+								sw.Agg, sw.AggAS = true, s.AggAS
+							}
+							want[pfx.String()] = w
+							stored[pfx.String()] = sw
+						}
+						nh, _ := bgp.NewPathAttributeNextHop(netip.MustParseAddr(src.Addr))
+						attrs := []bgp.PathAttributeInterface{bgp.NewPathAttributeOrigin(0)}
+						attrs = append(attrs, c14sOldForm(full, c.Source != 3)...)
+						attrs = append(attrs, nh)
+						if c.Source == 2 {
+							attrs = append(attrs, bgp.NewPathAttributeUnknown(bgp.BGP_ATTR_FLAG_TRANSITIVE, bgp.BGP_ATTR_TYPE_ATOMIC_AGGREGATE, []byte{1}))
+						}
+						if s.AggAS != 0 {
+							attrs = append(attrs, c14sOldAggregator(s.AggAS, c.Source != 3)...)
+						}
+						attrs = append(attrs, bgp.NewPathAttributeCommunities([]uint32{uint32(0x140000 | s.Variant)}))
+						sort.SliceStable(attrs, func(a, b int) bool { return attrs[a].GetType() < attrs[b].GetType() })
+						if err := srcSess.send(bgp.NewBGPUpdateMessage(nil, attrs, nl), &bgp.MarshallingOption{}); err != nil {
+							return verifkit.Failf("send", "%v", err)
+						}
+					}
+					continue
+				}
 				var params []bgp.AsPathParamInterface
 				for _, seg := range s.Path {
 					params = append(params, bgp.NewAs4PathParam(seg.T, append([]uint32(nil), seg.AS...)))
@@ -187,11 +298,72 @@ func runC14s(t *testing.T) func(c c14sCase, st *verifkit.Stats) *verifkit.Failur
 					want[pfx.String()] = w
 				}
 			}
-			if _, err := n.s.AddPath(apiutil.AddPathRequest{Paths: paths}); err != nil {
-				return verifkit.Failf("addpath", "%v", err)
+			if c.Source == 0 {
+				if _, err := n.s.AddPath(apiutil.AddPathRequest{Paths: paths}); err != nil {
+					return verifkit.Failf("addpath", "%v", err)
+				}
 			}
 			n.settle()
 			n.advance(2 * time.Second)
+			if c.Source != 0 {
+				// ---- what was learned: the Adj-RIB-In and the Loc-RIB hold the reconstructed attributes ----
+				if _, eof, _ := srcSess.snapshot(); eof {
+					return verifkit.Failf("session-lost", "the source's session ended (source mode %d)", c.Source)
+				}
+				for _, tt := range []api.TableType{api.TableType_TABLE_TYPE_ADJ_IN, api.TableType_TABLE_TYPE_GLOBAL} {
+					seen := 0
+					var f *verifkit.Failure
+					name := ""
+					if tt == api.TableType_TABLE_TYPE_ADJ_IN {
+						name = src.Addr
+					}
+					_ = n.s.ListPath(apiutil.ListPathRequest{TableType: tt, Family: bgp.RF_IPv4_UC, Name: name}, func(prefix bgp.NLRI, ps []*apiutil.Path) {
+						for _, pa := range ps {
+							seen++
+							w, ok := stored[prefix.String()]
+							if !ok || f != nil {
+								continue
+							}
+							g := c14sAttrs{}
+							for _, a := range pa.Attrs {
+								switch v := a.(type) {
+								case *bgp.PathAttributeAsPath:
+									var segs []rsSeg
+									for _, p := range v.Value {
+										segs = append(segs, rsSeg{T: p.GetType(), AS: append([]uint32(nil), p.GetAS()...)})
+										if _, two := p.(*bgp.AsPathParam); two {
+											f = verifkit.Failf("learned-as-path-2-octet", "%s in %v: the stored AS_PATH still has a 2-octet segment %v", prefix, tt, p)
+										}
+									}
+									g.Path = c14sNorm(segs)
+								case *bgp.PathAttributeAggregator:
+									g.Agg, g.AggAS = true, v.Value.AS
+								case *bgp.PathAttributeAs4Path, *bgp.PathAttributeAs4Aggregator:
+									f = verifkit.Failf("learned-as4-attr-kept", "%s in %v: the stored route still carries %v", prefix, tt, a.GetType())
+								case *bgp.PathAttributeAtomicAggregate:
+									if c.Source == 2 {
+										f = verifkit.Failf("discarded-attr-kept", "%s in %v: the malformed ATOMIC_AGGREGATE was kept", prefix, tt)
+									}
+								}
+							}
+							if f != nil {
+								continue
+							}
+							if !reflect.DeepEqual(g.Path, w.Path) {
+								f = verifkit.Failf("learned-as-path-lost", "%s in %v (source mode %d): stored AS_PATH %v, the OLD speaker's AS_PATH/AS4_PATH stand for %v", prefix, tt, c.Source, g.Path, w.Path)
+							} else if g.Agg != w.Agg || g.AggAS != w.AggAS {
+								f = verifkit.Failf("learned-aggregator-lost", "%s in %v (source mode %d): stored AGGREGATOR present=%v AS %d, sent present=%v AS %d", prefix, tt, c.Source, g.Agg, g.AggAS, w.Agg, w.AggAS)
+							}
+						}
+					})
+					if f != nil {
+						return f
+					}
+					if seen != len(stored) {
+						return verifkit.Failf("learned-route-missing", "%v holds %d routes, %d were announced (source mode %d)", tt, seen, len(stored), c.Source)
+					}
+				}
+			}
 			// ---- what the observer was sent ----
 			rx, eof, _ := ss.snapshot()
 			if eof {
@@ -209,6 +381,9 @@ func runC14s(t *testing.T) func(c c14sCase, st *verifkit.Stats) *verifkit.Failur
 					return verifkit.Failf("unparsable", "UPDATE %d does not parse under the session's options (2-octet AS: %v): %v\n%x", mi, c.NoAS4, err, m.Raw)
 				}
 				u := pm.Body.(*bgp.BGPUpdate)
+				if os.Getenv("VERIF_C14_TRACE") != "" {
+					fmt.Fprintf(os.Stderr, "observer UPDATE %d at %v: %d nlri %d withdrawn %d attrs len %d\n", mi, m.At, len(u.NLRI), len(u.WithdrawnRoutes), len(u.PathAttributes), len(m.Raw))
+				}
 				if len(u.NLRI) == 0 {
 					continue
 				}
@@ -279,6 +454,21 @@ func runC14s(t *testing.T) func(c c14sCase, st *verifkit.Stats) *verifkit.Failur
 				}
 				if g.Agg != w.Agg || g.AggAS != w.AggAS {
 					return verifkit.Failf("aggregator-lost", "%s (2-octet session: %v, %d UPDATEs): reconstructed AGGREGATOR present=%v AS %d, stored present=%v AS %d", pfx, c.NoAS4, nupd, g.Agg, g.AggAS, w.Agg, w.AggAS)
+				}
+			}
+			if c.Source == 1 || c.Source == 2 {
+				for _, w := range stored {
+					wide := w.AggAS > 65535
+					for _, sg := range w.Path {
+						for _, a := range sg.AS {
+							wide = wide || a > 65535
+						}
+					}
+					if wide {
+						st.Nontrivial()
+						st.Label(fmt.Sprintf("learned-from-old-speaker-mode-%d", c.Source))
+						break
+					}
 				}
 			}
 			if c.NoAS4 && needed4 && nupd >= 2 {
